@@ -798,6 +798,26 @@ func (oa *orderAnalysis) isMinMaxStore(st *ssa.Store) bool {
 		return ok && ld.Op == token.MUL && p.SameExpr(ld.X, st.Addr)
 	}
 	isNew := func(v ssa.Value) bool { return p.SameExpr(v, st.Val) }
+	// the update must not hang on another test of the same accumulator object
+	// (`if min.After(d) {…} else if max.Before(d) {…}`: whether the maximum is
+	// raised then depends on what the minimum was when the element arrived)
+	base := baseOf(st.Addr)
+	for _, cb := range st.Parent().Blocks {
+		ci, ok := cb.Instrs[len(cb.Instrs)-1].(*ssa.If)
+		if !ok || cb == pred {
+			continue
+		}
+		if ctl, _ := core.Controls(cb, b); !ctl {
+			continue
+		}
+		for v := range originSet(p, ci.Cond, 0) {
+			if ld, ok := v.(*ssa.UnOp); ok && ld.Op == token.MUL {
+				if fa, ok := ld.X.(*ssa.FieldAddr); ok && baseOf(fa) == base && !p.SameExpr(fa, st.Addr) {
+					return false
+				}
+			}
+		}
+	}
 	switch c := iff.Cond.(type) {
 	case *ssa.BinOp:
 		switch c.Op {
@@ -1053,7 +1073,11 @@ func (oa *orderAnalysis) callEffect(r *region, call ssa.CallInstruction, res *re
 	if b, ok := cc.Value.(*ssa.Builtin); ok {
 		switch b.Name() {
 		case "delete":
-			// commutative
+			// commutative; but leaving the loop early after deleting makes the
+			// set of deleted entries depend on the iteration order
+			if len(cc.Args) > 0 && cls(cc.Args[0]) != clsLocal {
+				*nonIdem = true
+			}
 		case "panic", "print", "println":
 		case "append", "len", "cap", "copy", "min", "max", "clear", "close", "new", "make":
 		}
